@@ -395,57 +395,64 @@ def guard_table(ctx):
                 return is_bool and neg and pol is True
             okc = len(conds) == 1 and bool_test(*conds[0])
     ctx.inst("R20.3", "expr_to_guard:children", okc, get_children["sp"], "children must be collected in for_each_child order and dropped unless all of them are Boolean")
-    m = None
-    for n in walk(combine["body"]):
-        if n.get("k") == "match" and n.get("src") == "match":
-            m = n
-            break
-    if m is None:
-        ctx.violation("R20.3", "expr_to_guard:match", combine["sp"], "UNRECOGNISED: no match over the expression kind")
-        return
+    # the combine callback, evaluated per expression variant: partially evaluate its body with `ctx[expr]` known to be variant V and the children
+    # slice of V's arity, and read off the BDD operation it returns.  (A lookup `GuardOp::of(&ctx[expr])` followed by a smaller match, or one big
+    # match, give the same table.)
+    from .. import peval
+    from ..tables import T0
     cb = binding_of_pat(combine["params"][2])
     eb = binding_of_pat(combine["params"][1])
+    cxb = binding_of_pat(combine["params"][0])
+    t0 = T0(ctx)
 
-    def is_bdd(e):
-        """the BDD manager of the guard context: self.bdd or a local bound to it"""
-        e = resolve(e)
-        fpth = field_path(e)
-        return bool(fpth) and fpth[0] == "self" and fpth[2] == ["bdd"]
-    seen = set()
-    for alt, arm in match_arms(m):
-        vp = variant_pat(alt)
-        b = peel(peel_block(arm["body"]))
-        if vp is None:
-            term = [x for x in walk(arm["body"]) if x.get("k") == "mcall" and x["name"] == "terminal"]
-            ok = len(term) == 1 and eb and is_local(term[0]["args"][0], eb[1]) and "guard" not in arm and is_bdd(term[0]["recv"])
-            ctx.inst("R20.3", "expr_to_guard:other->terminal", ok, arm["sp"], "every other expression must become a terminal for that very expression")
-            continue
-        vn = vname(vp[0])
-        seen.add(vn)
+    def is_node(e):
+        e0 = resolve(peel(e))
+        while e0.get("k") in ("mcall",) and e0["name"] in ("clone",) and not e0["args"]:
+            e0 = resolve(peel(e0["recv"]))
+        return e0.get("k") == "index" and eb is not None and is_local(e0["i"], eb[1]) and (cxb is None or is_local(e0["e"], cxb[1]) or "Context" in (e0["e"].get("ty") or e0["e"].get("aty") or ""))
+
+    def bdd_call(v):
+        """(method, args) when v is a call of a BddManager method"""
+        if isinstance(v, tuple) and v and v[0] == "call" and isinstance(v[1], str):
+            return v[1].split("::")[-1], v[2][1:] if len(v[2]) >= 1 else []
+        return None, []
+    table = {}
+    for vn, info in t0.variants.items():
+        # the children of an expression that is not a Boolean connective are never visited (the children callback drops them): an empty slice
+        arity = len(info["child_keys"]) if vn in GUARD_ORACLE else 0
+        pe = peval.PEval(is_node, info["path"], slice_lens={canon(cb[1]): arity} if cb else {})
+        fake = {"params": combine["params"], "body": combine["body"]}
+        try:
+            table[vn] = pe.run(fake)
+        except peval.Stuck as ex:
+            table[vn] = ("stuck", str(ex))
+    conn = list(GUARD_ORACLE)
+    n_term = 0
+    for vn, v in sorted(table.items()):
+        meth, args = bdd_call(v)
         if vn == "BVLiteral":
-            vbs = [binding_of(sp) for sp in vp[1].values()]
-            a0 = peel(b["args"][0]) if b.get("k") == "mcall" and b.get("args") else {}
-            ok = b.get("k") == "mcall" and b["name"] == "constant" and is_bdd(b["recv"]) and a0.get("k") == "mcall" and a0["name"] == "is_true" and bool(vbs) and vbs[0] is not None and is_local(a0["recv"], vbs[0][1])
-            ctx.inst("R20.3", "expr_to_guard:BVLiteral", ok, arm["sp"], "a Boolean literal must become constant(literal is true): %s" % show(b)[:80], sample=show(b)[:60])
+            a0 = args[0] if args else None
+            ok = meth == "constant" and isinstance(a0, tuple) and a0[0] == "call" and str(a0[1]).split("::")[-1] == "is_true" and a0[2] and a0[2][0] == ("attr", 0)
+            ctx.inst("R20.3", "expr_to_guard:BVLiteral", ok, combine["sp"], "a Boolean literal must become constant(literal is true): %s" % (v,), sample=str(v)[:80])
             continue
         want = GUARD_ORACLE.get(vn)
-        if want is None:
-            ctx.violation("R20.3", "expr_to_guard:%s" % vn, arm["sp"], "%s is converted structurally but is not a Boolean connective of the guard language" % vn)
+        if want is not None:
+            idxs = [a_[2] if isinstance(a_, tuple) and a_[0] == "child" else None for a_ in args]
+            ok = meth == want[0] and (idxs == want[1] or (want[0] in ("and", "or", "xor") and None not in idxs and sorted(idxs) == want[1]))
+            ctx.inst("R20.3", "expr_to_guard:%s" % vn, ok, combine["sp"], "%s must become %s over children %s: %s" % (vn, want[0], want[1], str(v)[:100]), sample=str(v)[:80])
             continue
-        idxs = []
-        okargs = b.get("k") == "mcall"
-        if okargs:
-            for a in b["args"]:
-                a = peel(a)
-                if a.get("k") == "index" and is_local(a["e"], cb[1]) and peel(a["i"]).get("k") == "lit":
-                    idxs.append(peel(a["i"])["v"])
-                else:
-                    okargs = False
-        ok = okargs and b["name"] == want[0] and (idxs == want[1] or (want[0] in ("and", "or", "xor") and sorted(idxs) == want[1])) and is_bdd(b["recv"])
-        ctx.inst("R20.3", "expr_to_guard:%s" % vn, ok, arm["sp"], "%s must become %s over children %s: %s" % (vn, want[0], want[1], show(b)[:80]), sample=show(b)[:60])
-    for vn in list(GUARD_ORACLE) + ["BVLiteral"]:
-        if vn not in seen:
-            ctx.inst("R20.3", "expr_to_guard:%s:present" % vn, False, m["sp"], "%s falls into the terminal arm: a Boolean connective becomes an opaque variable and the guard is no longer equivalent to the expression structure" % vn, nontrivial=False)
+        # every other variant: a terminal for that very expression
+        if meth == "terminal":
+            n_term += 1
+            a0 = args[0] if args else None
+            ok = isinstance(a0, tuple) and a0[0] in ("local", "param") and eb is not None and canon(a0[1]) == canon(eb[1])
+            if not ok:
+                ctx.inst("R20.3", "expr_to_guard:other->terminal", False, combine["sp"], "every other expression must become a terminal for that very expression: %s gives %s" % (vn, str(v)[:80]))
+        elif v[0] == "stuck":
+            ctx.violation("R20.3", "expr_to_guard:%s" % vn, combine["sp"], "UNRECOGNISED: what %s is converted to could not be determined (%s)" % (vn, v[1]))
+        else:
+            ctx.violation("R20.3", "expr_to_guard:%s" % vn, combine["sp"], "%s is converted structurally (%s) but is not a Boolean connective of the guard language" % (vn, str(v)[:60]))
+    ctx.inst("R20.3", "expr_to_guard:other->terminal", n_term >= 20, combine["sp"], "every other expression must become a terminal for that very expression (%d variants do)" % n_term)
 
 
 def binop(ctx):
